@@ -47,7 +47,7 @@ type c07Batch struct {
 // harness goroutines can fake (the flag is set before the receive is attempted).
 func runC07Late(rc *RunCtx, i int) {
 	r := rc.CaseRand(i)
-	variant := core.Pick(r, []string{"explicit-flush", "explicit-flush", "limit", "time"})
+	variant := core.Pick(r, []string{"explicit-flush", "explicit-flush", "limit", "time", "flush-after-commit", "flush-after-commit"})
 	var rowsA, rowsB []map[string]any
 	env, err := newLifecycleEnv(rc, i, r, func(s *gen.EngineSpec) {
 		s.BufRows, s.BufBytes, s.RGRows, s.RGBytes = 1000, 1<<20, 1000, 10<<20
@@ -68,6 +68,10 @@ func runC07Late(rc *RunCtx, i int) {
 	cfg := env.spec.Config()
 	cfg.MaxBufferedTime = time.Hour
 	switch variant {
+	case "flush-after-commit":
+		// A's own flush is triggered by the row limit and commits; only the delivery of its
+		// answer is pending (the receiver is late) when Flush arrives with nothing buffered
+		cfg.MaxBufferedRows = len(rowsA)
 	case "limit":
 		cfg.MaxBufferedRows = len(rowsA) + len(rowsB)
 	case "time":
@@ -103,7 +107,12 @@ func runC07Late(rc *RunCtx, i int) {
 	}
 	viol := ""
 	chB := make(chan error, 2)
-	if variant != "explicit-flush" || r.Bool() {
+	if variant == "flush-after-commit" {
+		// wait until A's flush has committed (its MetaStore.Update returned)
+		for t := 0; t < 2000 && len(env.w.IMeta.UpdateRecs()) == 0; t++ {
+			time.Sleep(250 * time.Microsecond)
+		}
+	} else if variant != "explicit-flush" || r.Bool() {
 		if err := e.IngestRows(ctx, rowsB, chB); err != nil {
 			rc.Violate(i, "scenario-failed", "", "IngestRows B: "+err.Error(), desc)
 			return
@@ -111,7 +120,7 @@ func runC07Late(rc *RunCtx, i int) {
 		desc["later_batch"] = true
 	}
 	flushDone := make(chan error, 1)
-	if variant == "explicit-flush" {
+	if variant == "explicit-flush" || variant == "flush-after-commit" {
 		go func() { flushDone <- e.Flush(ctx) }()
 	}
 	// watch the later subjects until the receiver has started on its own
